@@ -621,6 +621,113 @@ func gen(r *hx.Rng) Case {
 	return c
 }
 
+// genPressure builds the schedule shape the property is about: a value is published, readers and/or a pending
+// persist step hold on to it, enough other keys are committed to evict it from both LRUs, released buffers are
+// handed to new writers that overwrite them, and only then the old readers read and close.
+func genPressure(r *hx.Rng) Case {
+	c := Case{Kind: "dir", DCap: r.Range(1, 2), FCap: r.Range(1, 2), Sync: r.Chance(1, 3), Fadv: r.Chance(1, 5)}
+	d := newDriver(c)
+	do := func(o Op) string {
+		res := d.do(o)
+		c.Ops = append(c.Ops, o)
+		return res
+	}
+	writeVal := func(w, n int) {
+		ws := d.ws[w]
+		for n > 0 {
+			ln := r.Range(1, n)
+			o := Op{Op: "write", W: w}
+			for j := 0; j < ln; j++ {
+				o.Data = append(o.Data, streamByte(ws.key, w, len(ws.acc)+j))
+			}
+			do(o)
+			n -= ln
+		}
+	}
+	persist := func(w int, upto int) { // run persist sub-steps of writer w until its stage is upto (or done when upto<0)
+		for w < len(d.ws) && d.ws[w].stage >= 0 && d.ws[w].stage != upto {
+			st := d.ws[w].stage
+			do(Op{Op: []string{"pwrite", "prename", "pdone"}[st], W: w})
+			if d.ws[w].stage == st {
+				return
+			}
+		}
+	}
+	publish := func(k, n int, direct bool, hold int) int { // returns writer index
+		do(Op{Op: "add", K: k, Direct: direct})
+		w := len(d.ws) - 1
+		writeVal(w, n)
+		do(Op{Op: "commit", W: w})
+		if c.Sync && hold != 0 && r.Chance(2, 3) {
+			hold = -1
+		}
+		persist(w, hold)
+		return w
+	}
+	victim := r.Intn(nkeys)
+	rounds := r.Range(1, 3)
+	for round := 0; round < rounds; round++ {
+		// publish the victim key; the persist step may stay pending at any stage
+		hold := r.Pick(3, 2, 2, 3) - 1 // -1 done, 0, 1, 2
+		wv := publish(victim, r.Pick(1, 2, 3, 3, 2)*r.Range(0, 3), false, hold)
+		var held []int
+		for i, n := 0, r.Range(1, 3); i < n; i++ {
+			if res := do(Op{Op: "get", K: victim, Direct: r.Chance(1, 6), PT: r.Chance(1, 3)}); res != "miss" && res != "skip" {
+				held = append(held, len(d.rs)-1)
+			}
+		}
+		// evict it: commit other keys (some through the descriptor path as well)
+		for i, n := 0, r.Range(2, 4); i < n; i++ {
+			k := (victim + 1 + r.Intn(nkeys-1)) % nkeys
+			publish(k, r.Range(0, 6), r.Chance(1, 5), r.Pick(4, 1, 1, 1)-1)
+			if r.Chance(1, 2) {
+				if res := do(Op{Op: "get", K: k, Direct: r.Chance(1, 4)}); res != "miss" && res != "skip" && r.Chance(2, 3) {
+					do(Op{Op: "closer", R: len(d.rs) - 1})
+				}
+			}
+		}
+		if r.Chance(1, 2) {
+			persist(wv, -1)
+		}
+		// some holders let go now: their buffers / descriptors may be recycled
+		for _, x := range held {
+			if r.Chance(1, 3) {
+				do(Op{Op: "closer", R: x})
+			}
+		}
+		// new writers pick up recycled buffers and overwrite them (some never commit)
+		for i, n := 0, r.Range(1, 3); i < n; i++ {
+			k := r.Intn(nkeys)
+			do(Op{Op: "add", K: k})
+			w := len(d.ws) - 1
+			writeVal(w, r.Range(2, 8))
+			switch r.Pick(3, 1, 2) {
+			case 0:
+				do(Op{Op: "commit", W: w})
+				persist(w, r.Pick(3, 1, 1, 1)-1)
+			case 1:
+				do(Op{Op: "abort", W: w})
+			}
+		}
+		// the old readers read now
+		for _, x := range held {
+			if d.rs[x].open {
+				l := len(d.rs[x].val)
+				do(Op{Op: "read", R: x, Off: r.Intn(l + 2), N: r.Intn(l + 3)})
+				if r.Chance(2, 3) {
+					do(Op{Op: "closer", R: x})
+				}
+			}
+		}
+		do(Op{Op: "get", K: victim, Direct: r.Chance(1, 4)})
+		if r.Chance(1, 2) {
+			do(Op{Op: "peek", K: victim})
+		}
+	}
+	d.finish()
+	return c
+}
+
 // ---- concurrent stress (oracle only) ----
 
 func stress(c Case) []string {
@@ -854,7 +961,12 @@ func main() {
 		nstress = 48
 	}
 	for i := len(corpus); i < ctx.N-nstress; i++ {
-		run(gen(r.Fork()))
+		q := r.Fork()
+		if i%3 == 0 {
+			run(genPressure(q))
+		} else {
+			run(gen(q))
+		}
 	}
 	for i := 0; i < nstress; i++ {
 		q := r.Fork()
